@@ -154,7 +154,9 @@ def r13_1(ctx):
         if c != 0:
             continue
         in_parser = v.in_context_of(n, parse_fn.id)
-        dom = any(sup.dominates(w, n) and w != n and v.in_context_of(w, parse_fn.id) for w in outw)
+        # every (feasible) way to this exit has written to stdout inside the parser
+        pw = [w for w in outw if v.in_context_of(w, parse_fn.id)]
+        dom = bool(pw) and n not in v.ps.reach(removed_nodes=pw)
         ctx.ob(f"exit0:{_opt_key(binc, sup, n)}", in_parser and dom, v.site(n), "exit(0) follows a help/version write to stdout inside the argument parser" if in_parser and dom else "exit(0) outside the help/version arms")
     # (d) every exit(1) reachable from main is preceded by an 'xt error' line
     for n, c in v.exits:
@@ -247,6 +249,10 @@ def r13_2(ctx):
     for n, b, t in v.stdout_gets:
         in_graph.add((b.id, n[1]))
         if v.in_context_of(n, parse_fn.id):
+            if not v._states().get(n):
+                # not reachable in this calling context (e.g. the -V arm never reaches the --help printer)
+                ctx.ob(f"stdout-site:parser:{_opt_key(binc, sup, n)}:{b.name}:infeasible", True, v.site(n), "site not reachable in this calling context", trivial=True)
+                continue
             r, terms, ok = _only_exit(v, ("node", n), 0)
             ctx.ob(f"stdout-site:parser:{_opt_key(binc, sup, n)}:{b.name}", ok, v.site(n), "stdout obtained for help/version, which then exits 0" if ok else "stdout obtained in the argument parser on a path that does not exit 0")
         else:
